@@ -1462,14 +1462,17 @@ def corpus_spine(ctx: Ctx) -> None:
 
         R.Repetition.fuzz = fuzz
         random.randint = lambda a, b, _d=draws: next(_d)
+        err = None
         try:
             with fio.Recorder() as rec:
                 with limit(10):
                     grammar.fuzz("<start>", 50)
+        except (Timeout, Exception) as e:  # noqa  (the scripted draws no longer fit the code: a disagreement, not a crash)
+            err = type(e).__name__
         finally:
             R.Repetition.fuzz, random.randint = o_fuzz, o_randint
-        ctx.corr("spine:budget_constant_at_every_level", budgets[0::2] == [48] * (k + 1),
-                 {"spec": SPINE_SPEC, "k": k, "budgets": budgets[:12]})
+        ctx.corr("spine:budget_constant_at_every_level", err is None and budgets[0::2] == [48] * (k + 1),
+                 {"spec": SPINE_SPEC, "k": k, "budgets": budgets[:12], "error": err})
         record_calls(ctx, rec, SPINE_SPEC, "fuzz:spine", {})
 
 
